@@ -720,6 +720,44 @@ pub fn c04_conc(_sc: &Scenario, hx: &Hx, v: &mut Verdict) {
             }
         }
     }
+    // once the delete is acknowledged as accepted the key is gone and its weight is no longer counted
+    if hx.first_shutdown_inv().is_none() {
+        if let Some(o) = hx.obs_named("pre") {
+            let keys: std::collections::BTreeSet<u32> = hx.writes.iter().map(|w| w.key).collect();
+            for k in keys {
+                let ws: Vec<&WriteRec> = hx.writes_of_key(k).collect();
+                let last = match ws.iter().max_by_key(|w| w.inv) {
+                    Some(l) => *l,
+                    None => continue,
+                };
+                if !last.is_delete() || last.status() != Some(St::Accepted) {
+                    continue;
+                }
+                // every other write of the key had returned (hence was queued ahead, FIFO) before this
+                // delete was invoked
+                let settled = ws.iter().all(|w| std::ptr::eq(*w, last) || w.ret.map(|r| r < last.inv).unwrap_or(false));
+                if !settled {
+                    continue;
+                }
+                if let Some(e) = o.store.iter().find(|s| s.0 == k) {
+                    v.fail(
+                        "C04",
+                        "C04/still-present-after-accepted-delete/conc".to_string(),
+                        format!("k{}: {} was acknowledged Accepted and nothing wrote the key afterwards, yet the store holds id {}", k, fmt_op(last), e.1),
+                        hx.len,
+                    );
+                }
+                if let Some(c) = o.weights.iter().find(|w| w.1 == k) {
+                    v.fail(
+                        "C04",
+                        "C04/weight-not-released/conc".to_string(),
+                        format!("k{}: {} was acknowledged Accepted and nothing wrote the key afterwards, yet id {} is still charged weight {}", k, fmt_op(last), c.0, c.3),
+                        hx.len,
+                    );
+                }
+            }
+        }
+    }
     if window_read {
         v.probes.push("read_between_delete_return_and_worker_delete");
     }
